@@ -1,8 +1,8 @@
 from contracts.h5graph import CONTRACTS as _H
-from contracts.tree import ParentSet, PropertyGroupAdd, PropertyGroupRemove
+from contracts.tree import ALL_OF as _ALLOF, ParentSet, PropertyGroupAdd, PropertyGroupRemove
 from contracts.removal import RemoveRecursively, RemoveDataFromGroups, WorkspaceRemoveChildren
 from contracts.histories import ApiHistories, KfRemoveThroughParent
-CONTRACTS = list(_H) + [ParentSet, PropertyGroupAdd, PropertyGroupRemove, RemoveRecursively, RemoveDataFromGroups, WorkspaceRemoveChildren, ApiHistories, KfRemoveThroughParent]
+CONTRACTS = list(_H) + [ParentSet, PropertyGroupAdd, PropertyGroupRemove, RemoveRecursively, RemoveDataFromGroups, WorkspaceRemoveChildren, ApiHistories, KfRemoveThroughParent] + list(_ALLOF)
 
 MANIFEST = {
     "category": "proof",
